@@ -340,7 +340,8 @@ def main():
                     cases.append(dict(w, kill=p, reference_requests=ref))
                 continue
             for k in range(1, C + 1):
-                points.append({'kind': 'before_commit', 'at': k})
+                if check.thorough or k % 2 == 0:
+                    points.append({'kind': 'before_commit', 'at': k})      # (quick tier: every second one)
                 points.append({'kind': 'after_commit', 'at': k})
             for k in range(1, S + 1):
                 points.append({'kind': 'before_stmt', 'at': k})
